@@ -129,7 +129,16 @@ def impl_run(case):
             a = H(gens.py_hist_dict(case["a"]))
             b = H({_typed(o, case["types"]): c for o, c in case["b"]})
             la = a.lowest_terms()
-            return {"eq": a == b, "ne": a != b, "hasheq": hash(a) == hash(b), "sym": (b == a) == (a == b),
+            # a relabelling that folds outcomes together, applied AFTER the source took part in a comparison: its result
+            # reduces, compares and hashes like the same distribution built directly
+            extra = {}
+            if all(Fraction(o).denominator == 1 for o in a):
+                u = abs(a) if len(a) % 2 else a.umap(lambda o: o // 2)
+                ref = H(dict(u.items()))
+                lu = u.lowest_terms()
+                extra["umap_ok"] = (u == ref and hash(u) == hash(ref) and hist_items(lu) == hist_items(ref.lowest_terms())
+                                    and (math.gcd(*lu.counts()) if len(lu) else 1) == 1)
+            return {**extra, "eq": a == b, "ne": a != b, "hasheq": hash(a) == hash(b), "sym": (b == a) == (a == b),
                     "lowest": hist_items(la), "idem": hist_items(la.lowest_terms()) == hist_items(la),
                     "low_eq": la == a, "gcd": math.gcd(*la.counts()) if len(la) else 1,
                     "minc": min(la.counts()) if len(la) else 1}
@@ -277,7 +286,8 @@ def agree(case, r, o):
         if "exc" in r:
             return False
         return (r["eq"] == o["eq"] and r["ne"] == (not o["eq"]) and (r["hasheq"] or not r["eq"]) and r["sym"]
-                and r["lowest"] == o["lowest"] and r["idem"] and r["low_eq"] and r["gcd"] == 1 and r["minc"] >= 1)
+                and r["lowest"] == o["lowest"] and r["idem"] and r["low_eq"] and r["gcd"] == 1 and r["minc"] >= 1
+                and r.get("umap_ok", True))
     if "exc" in o:
         return r.get("exc") == o["exc"]
     return r.get("ok") == o["ok"] and r.get("total") == o["total"]
